@@ -22,7 +22,7 @@ S_mi == <<109, 105>>  S_br == <<98, 114>>  S_meta == <<109, 101, 116, 97>>  S_re
 S_onclick == <<111, 110, 99, 108, 105, 99, 107>>  S_fill == <<102, 105, 108, 108>>  S_id == <<105, 100>>  S_base == <<98, 97, 115, 101>>
 S_http == <<104, 116, 116, 112>>  S_png == <<105, 109, 97, 103, 101, 47, 112, 110, 103>>
 S_color == <<99, 111, 108, 111, 114>>  S_width == <<119, 105, 100, 116, 104>>  S_red == <<114, 101, 100>>  S_solid == <<115, 111, 108, 105, 100>>
-S_cite == <<99, 105, 116, 101>>
+S_cite == <<99, 105, 116, 101>>  S_formaction == <<102, 111, 114, 109, 97, 99, 116, 105, 111, 110>>
 S_important == <<33, 105, 109, 112, 111, 114, 116, 97, 110, 116>>  S_stroke == <<115, 116, 114, 111, 107, 101>>
 
 \* ---- allow-list configurations (exported once, in the initial state, so that the replay builds the same Filter) ----
@@ -36,7 +36,14 @@ Lcfg(k) == CASE k = 1 -> Lbase
              [] k = 2 -> [Lbase EXCEPT !.prot = {S_http}, !.loc = {S_use}]                          \* no data: (double delete), live local-href step
              [] k = 3 -> [Lbase EXCEPT !.el = {<<NS_html, S_p>>, <<NS_svg, S_use>>}, !.at = {<<None, N_href>>, <<None, A_style>>},
                                        !.ct = {S_png}, !.cp = {S_color}, !.ck = {}, !.sp = {}]        \* restricted
-             [] k = 4 -> [Lbase EXCEPT !.ref = {<<None, S_fill>>, <<NS_xlink, N_href>>}, !.loc = {S_use, S_a}, !.prot = {S_http, U_data, <<106, 97, 118, 97, 115, 99, 114, 105, 112, 116>>}]
+             \* k = 4: a caller who EXTENDS the lists with entries of his own (a URI-valued attribute, an event attribute, an element,
+             \* a protocol, a content type, CSS words): the guarantee is relative to the lists of the instance, whatever they are
+             [] k = 4 -> [Lbase EXCEPT !.ref = {<<None, S_fill>>, <<NS_xlink, N_href>>}, !.loc = {S_use, S_a},
+                                       !.prot = {S_http, U_data, <<106, 97, 118, 97, 115, 99, 114, 105, 112, 116>>},
+                                       !.el = @ \cup {<<NS_svg, S_script>>}, !.at = @ \cup {<<None, S_formaction>>, <<None, S_onclick>>},
+                                       !.uri = @ \cup {<<None, S_formaction>>}, !.ct = @ \cup {<<116, 101, 120, 116, 47, 104, 116, 109, 108>>},
+                                       !.cp = @ \cup {<<98, 101, 104, 97, 118, 105, 111, 114>>}, !.ck = @ \cup {<<101, 118, 105, 108>>},
+                                       !.sp = @ \cup {<<120>>}]
 NCfg == 4
 
 \* ---- token alphabet ----
@@ -65,6 +72,8 @@ AttrChoices == {
     <<None, S_cite, <<106, 97, 118, 97, 115, 99, 114, 105, 112, 116, 58, 120>>>>,                        \* javascript:x
     <<None, S_cite, <<100, 97, 116, 97, 58, 105, 109, 97, 103, 101, 47, 112, 110, 103, 44, 120>>>>,       \* data:image/png,x
     <<None, N_href, <<>>>>,
+    <<None, S_formaction, <<106, 97, 118, 97, 115, 99, 114, 105, 112, 116, 58, 120>>>>,                  \* formaction (URI-valued in k = 4 only): javascript:x
+    <<None, S_formaction, <<118, 98, 115, 99, 114, 105, 112, 116, 58, 120>>>>,                           \*   vbscript:x
     <<None, S_fill, <<117, 114, 108, 40, 104, 116, 116, 112, 58, 120, 41, 32, 117, 114, 108, 40, 35, 97, 41>>>>,   \* url(http:x) url(#a)
     <<None, S_fill, <<85, 82, 76, 40, 120, 121, 41, 38, 108, 116, 59>>>>,                                \* URL(xy)&lt;
     <<None, A_style, <<99, 111, 108, 111, 114, 58, 32, 114, 101, 100>>>>,                                \* color: red
@@ -100,7 +109,7 @@ Init == IF Mode = "tok"
              /\ \/ tok \in Others
                 \/ \E e \in Elems, t \in {"StartTag", "EndTag"} : tok = T(t, e[2], e[1], <<>>, <<>>)
                 \/ \E e \in Voids : tok = T("EmptyTag", e[2], e[1], <<>>, <<>>)
-        ELSE k = 1 /\ tok = NoTok /\ v = <<>> /\ n = 0
+        ELSE k = (IF IsCss THEN 4 ELSE 1) /\ tok = NoTok /\ v = <<>> /\ n = 0      \* styles under the extended CSS lists of k = 4
 Next == /\ n < MaxLen /\ n' = n + 1 /\ UNCHANGED k
         /\ IF Mode = "tok"
            THEN /\ tok.t \in {"StartTag", "EmptyTag"} /\ UNCHANGED v
